@@ -126,6 +126,7 @@ func runCN(id int, c *cnCase, via string) cnLine {
 	var mu sync.Mutex
 	var chans []<-chan struct{}
 	var delivered []uint32
+	handled := 0 // handlers that have returned (a step is over when its handlers are, not when they start)
 	panicked := false
 	mux := diam.NewServeMux()
 	stop := make(chan struct{})
@@ -141,6 +142,11 @@ func runCN(id int, c *cnCase, via string) cnLine {
 	var dconn diam.Conn
 	gotConn := make(chan struct{}, 1)
 	mux.HandleFunc("ALL", func(dc diam.Conn, m *diam.Message) {
+		defer func() {
+			mu.Lock()
+			handled++
+			mu.Unlock()
+		}()
 		mu.Lock()
 		if dconn == nil {
 			dconn = dc
@@ -181,7 +187,7 @@ func runCN(id int, c *cnCase, via string) cnLine {
 		deadline := time.Now().Add(3 * time.Second)
 		for time.Now().Before(deadline) {
 			mu.Lock()
-			k := len(delivered)
+			k := handled
 			mu.Unlock()
 			if k >= n || mc.Closed() {
 				return
